@@ -36,6 +36,12 @@ def parseFile (crc : List Nat → Nat) (dec : List Nat → Bool) : Nat → List 
         else if !dec data then []                  -- undecodable payload
         else data :: parseFile crc dec fuel (rest2.drop 4)
 
+/-- `ensure_active_log` on an existing file (`valid_prefix_len` + `set_len`): before anything is
+appended the file is cut at the end of its last complete record, i.e. it consists of exactly the
+frames recovery reads. -/
+def reopenBytes (crc : List Nat → Nat) (dec : List Nat → Bool) (bs : List Nat) : List Nat :=
+  encodeAll crc (parseFile crc dec bs.length bs)
+
 /-! ### record level: the commit rule of `recover_internal` -/
 
 inductive Kind where
